@@ -311,11 +311,14 @@ def glencoe(pm: ProgramModel, ctx: Ctx, mb: ModelBuilder) -> None:
     root = mb.feature("R")
     g = mb.feature("G")
     mb.relation(root, [g], 1, 1)
-    mb.relation(g, [mb.feature("A"), mb.feature("B"), mb.feature("C")], 2, 3)
+    mb.relation(g, [mb.feature("A"), mb.feature("B"), mb.feature("C")], 1, 2)
+    g2 = mb.feature("G2")
+    mb.relation(root, [g2], 0, 1)
+    mb.relation(g2, [mb.feature("D"), mb.feature("E"), mb.feature("F")], 2, 2)
     refg = mb.model(root, [])
     doc = glencoe_doc(refg, ctcs=False)
     r = read(pm, "GlencoeReader", json.dumps(doc))
-    compare(ctx, "C09-KEYFLOW", "glencoe-genor", where, r, refg, "Glencoe GENOR group min=2 max=3")
+    compare(ctx, "C09-KEYFLOW", "glencoe-genor", where, r, refg, "Glencoe GENOR groups min=1 max=2 / min=2 max=2 of 3")
     # unknown feature type -> library error, not a stale / undefined relation
     doc2 = json.loads(json.dumps(doc))
     for v in doc2["features"].values():
